@@ -4,6 +4,7 @@ import (
 	"fmt"
 	"go/token"
 	"go/types"
+	"sort"
 	"strings"
 
 	"golang.org/x/tools/go/ssa"
@@ -195,6 +196,8 @@ func checkC19(p *core.Program, r *core.Report) {
 	r.Rule("R1", "single conversion point: in the module's non-test code a value carrying the identifying part of a URN (urns.URN values, results of the urns API other than the scheme, ContactURN.URN()/String()) reaches an X-value constructor only inside ContactURN.ToXValue through withoutQuery(redact); withoutQuery returns nothing derived from path/display/query unless on the redact==false edge; redact is RedactionPolicy()==urns; Contact.Format returns URN-derived text only on the non-redacting edge")
 	r.Rule("R2", "queries: every construction of a URN-typed condition (and of a condition on the urn attribute) in the query visitor/parser is guarded by a RedactionPolicy test (rejecting, or on the non-redacting edge)")
 	r.Rule("R3", "positive direction: on the non-redacting edge withoutQuery passes scheme, path and display to urns.NewFromParts (only the query is dropped)")
+	r.Rule("R4", "the policy in force is the session's current one: session.MergedEnvironment (the environment every template is evaluated under) returns a wrapper built by flows.NewSessionEnvironment on that call; if it returns a value kept in a session field instead, every function that writes session.env also writes that field")
+	c19R4(p, r)
 	r.Assumption("values that reach the context from outside the engine (trigger params, webhook responses, message text) are data, not URN-typed")
 
 	// ------------------------------------------------------------------ R1a sinks
@@ -499,4 +502,59 @@ func c19R2(p *core.Program, r *core.Report) {
 		}
 		r.Check(ok, "R2", "ParseQuery/tel-rewrite-unredacted-only", p.Pos(pq.Pos()), "a bare number becomes `tel = ...` only when the policy is not urns", "a bare number is rewritten into a tel query under redaction")
 	}
+}
+
+func c19R4(p *core.Program, r *core.Report) {
+	me := p.Method("flows/engine", "session", "MergedEnvironment")
+	envField := p.FieldOf("flows/engine", "session", "env")
+	if me == nil || envField == nil {
+		r.Errorf("session.MergedEnvironment / session.env not found")
+		return
+	}
+	// session fields the result may come from
+	cached := map[*types.Var]bool{}
+	fresh := false
+	for _, b := range me.Blocks {
+		ret, ok := b.Instrs[len(b.Instrs)-1].(*ssa.Return)
+		if !ok || len(ret.Results) == 0 {
+			continue
+		}
+		for v := range core.BackSlice(ret.Results[0], nil) {
+			switch x := v.(type) {
+			case *ssa.UnOp:
+				if fv := core.FieldAddrVar(x.X); fv != nil && x.Op == token.MUL {
+					cached[fv] = true
+				}
+			case *ssa.Call:
+				if o := core.CalleeObj(&x.Call); o != nil && core.ObjName(o) == "flows.NewSessionEnvironment" {
+					fresh = true
+				}
+			}
+		}
+	}
+	if len(cached) == 0 {
+		r.Check(fresh, "R4", "session.MergedEnvironment/fresh", p.Pos(me.Pos()), "built by NewSessionEnvironment on every call", "session.MergedEnvironment does not build its result with flows.NewSessionEnvironment")
+		return
+	}
+	// a cache: every writer of session.env must reset it
+	var missing []string
+	for _, w := range p.FieldWrites(envField) {
+		if p.IsTestFile(w.Instr.Pos()) {
+			continue
+		}
+		for fv := range cached {
+			resets := false
+			for _, w2 := range p.FieldWrites(fv) {
+				if rootFn(w2.Fn) == rootFn(w.Fn) {
+					resets = true
+				}
+			}
+			if !resets {
+				missing = append(missing, core.FuncName(w.Fn)+" (writes env, not "+fv.Name()+")")
+			}
+		}
+	}
+	sort.Strings(missing)
+	r.Check(len(missing) == 0, "R4", "session.MergedEnvironment/fresh", p.Pos(me.Pos()), "cached wrapper is reset wherever the environment is replaced",
+		"session.MergedEnvironment returns a wrapper kept in the session, but "+strings.Join(missing, ", ")+": after a resume with a new environment, templates are still evaluated under the old redaction policy")
 }
